@@ -127,7 +127,7 @@ def to_model(d):
                     units.append([f"{grp}.{sk}", sv])
         if is_num(e["error_rate"]):
             vals.append(["error_rate", canon_val(e["error_rate"])])
-        tasks.append({"name": e.get("task", e["operation"]), "vals": vals, "units": units})
+        tasks.append({"task": e["task"] if "task" in e else None, "operation": e["operation"], "vals": vals, "units": units})
     lists = []
     for k, (idf, fields) in u["lists"].items():
         x = v(k)
@@ -562,7 +562,37 @@ def _pair(rng, p_missing=0.12):
     return b, c
 
 
-def gen_pair(rng, density=None, tasks=True, lists=True, weird=False):
+OPS = ["bulk", "search", "agg"]
+
+
+def gen_task_ids(rng, n, dup=False):
+    """n task identities (name, operation, record has a task key) the way tracks produce them: several tasks may share an
+    operation; a task without an explicit name is called like its operation; an explicit name may be anything - also the
+    name of another task's operation; records of race files before Rally 0.8.0 have no task key; any order"""
+    out, names = [], set()
+    for _ in range(60):
+        if len(out) >= n:
+            break
+        op = rng.choice(OPS)
+        k = rng.random()
+        if k < 0.35:
+            name, keyed = op, True
+        elif k < 0.65:
+            name, keyed = op + rng.choice(["-warmup", "-2", "-cold"]), True
+        elif k < 0.80:
+            name, keyed = rng.choice([o for o in OPS if o != op]), True
+        elif k < 0.90:
+            name, keyed = op, False
+        else:
+            name, keyed = rng.choice(["index", "force-merge"]), True
+        if name in names and not dup:
+            continue
+        names.add(name)
+        out.append((name, op, keyed))
+    return out
+
+
+def gen_pair(rng, density=None, tasks=True, lists=True, weird=False, min_tasks=0):
     """a (baseline, contender) pair of result dictionaries"""
     u = universe()
     density = rng.choice([0.05, 0.2, 0.5, 0.9]) if density is None else density
@@ -589,20 +619,30 @@ def gen_pair(rng, density=None, tasks=True, lists=True, weird=False):
             if rng.random() < 0.1:
                 del b[k]
     if tasks:
-        names = ["index", "search", "agg", "index"]
-        nb = rng.choice([0, 1, 1, 2, 3])
-        tb = [rng.choice(names[:3]) if rng.random() < 0.9 else "index" for _ in range(nb)]
-        tc = [t for t in tb if rng.random() < 0.85]
+        nb = rng.choice([0, 1, 1, 2, 3]) if min_tasks == 0 else rng.randrange(min_tasks, min_tasks + 3)
+        dup = rng.random() < 0.1
+        tb = gen_task_ids(rng, nb, dup)
+        tc = []
+        for (name, op, keyed) in tb:
+            if rng.random() < 0.85:
+                r = rng.random()
+                if r < 0.8:
+                    tc.append((name, op, keyed))
+                elif r < 0.9:
+                    tc.append((name, rng.choice(OPS), True))  # same task, other operation in the contender's track
+                else:
+                    tc.append((name, name, False) if name in OPS else (name, op, True))
         if rng.random() < 0.3:
-            tc.append(rng.choice(names))
+            for x in gen_task_ids(rng, 1, True):
+                if dup or x[0] not in [t[0] for t in tc]:
+                    tc.append(x)
         rng.shuffle(tc)
-        keyed = rng.random() < 0.9
 
-        def rec(t, vals, side):
-            e = {"operation": t, "throughput": {}, "latency": {}, "service_time": {}, "processing_time": {}}
+        def rec(tid, vals, side):
+            t, op, keyed = tid
+            e = {"operation": op, "throughput": {}, "latency": {}, "service_time": {}, "processing_time": {}}
             if keyed:
                 e["task"] = t
-                e["operation"] = "op-" + t
             for s in TP_SUBS:
                 e["throughput"][s] = vals.get(("throughput", s))
             e["throughput"]["unit"] = rng.choice(["docs/s", "ops/s"]) if rng.random() < 0.9 else None
@@ -618,7 +658,7 @@ def gen_pair(rng, density=None, tasks=True, lists=True, weird=False):
             return e
 
         shared = {}
-        for t in set(tb + tc):
+        for t in sorted({x[0] for x in tb + tc}):
             vb, vc = {}, {}
             npct = rng.choice([0, 1, 2, 4, 6])
             if rng.random() < 0.85:
@@ -637,8 +677,8 @@ def gen_pair(rng, density=None, tasks=True, lists=True, weird=False):
                 y = rng.choice([x, 0.0, rng.random(), 1.0, 0])
                 vb[("error_rate",)], vc[("error_rate",)] = x, y
             shared[t] = (vb, vc)
-        b["op_metrics"] = [rec(t, shared[t][0], "b") for t in tb]
-        c["op_metrics"] = [rec(t, shared[t][1], "c") for t in tc]
+        b["op_metrics"] = [rec(t, shared[t[0]][0], "b") for t in tb]
+        c["op_metrics"] = [rec(t, shared[t[0]][1], "c") for t in tc]
     if lists:
         def entries(idf, fields, ids, src=None):
             out = []
@@ -725,6 +765,14 @@ def gen_cells(ctx):
         yield {"b": b, "c": c, "proc": False, "fmt": rng.choice(["markdown", "csv"])}
 
 
+def gen_aliasing(ctx):
+    """tasks only: 2-4 tasks per race that share operations / are named like other tasks' operations, in any order"""
+    rng = ctx.rng
+    for _ in range(ctx.budget):
+        b, c = gen_pair(rng, density=0.0, tasks=True, lists=False, min_tasks=2)
+        yield {"b": b, "c": c, "proc": rng.random() < 0.3, "fmt": rng.choice(["markdown", "csv"])}
+
+
 def gen_none_lists(ctx):
     """malformed stream (correspondence only): arbitrary None / duplicate-name patterns in the list attributes
     (TypeError paths, the asymmetric transform guard, first-match on duplicate names) - not something rally stores"""
@@ -795,9 +843,11 @@ def _cls_row(base, default):
     return default
 
 
-def _cls_swap(base, cont, default):
-    """input class of a swap failure of the percentage column (either value is a baseline once)"""
-    if base == 0 or cont == 0:
+def _cls_swap(base, cont, default, p=None, q=None):
+    """input class of a swap failure of the percentage column (either value is a baseline once); the zero-baseline
+    class is exactly: the side whose baseline is zero prints 0.00% neutral"""
+    zero_shape = lambda cell: cell is not None and cell["col"] == "neutral" and cell["digits"] == "0.00" and cell["sign"] == ""
+    if (base == 0 and zero_shape(p)) or (cont == 0 and zero_shape(q)):
         return "pct-zero-baseline"
     if base < 0 or cont < 0:
         return "pct-negative-baseline"
@@ -905,7 +955,7 @@ def oracle_swap(ctx, fwd, bwd):
             neutral = p if p["col"] == "neutral" else q
             okp = okp and neutral["digits"] == "0.01"
         if not okp:
-            _fail(ctx, _cls_swap(r["fb"], r["fc"], "pct-swap"),
+            _fail(ctx, _cls_swap(r["fb"], r["fc"], "pct-swap", p, q),
                      f"swap does not flip sign and colour of Diff % for {r['key']}: baseline {float(r['fb'])!r}, contender {float(r['fc'])!r}",
                      p["txt"] + "/" + p["col"], q["txt"] + "/" + q["col"])
 
@@ -928,6 +978,56 @@ def oracle_count(ctx, b, c, fwd):
     got = len([r for r in fwd if r["key"][1] == ""])
     if got != n:
         _fail(ctx, "presence-count", "number of global rows differs from the number of global metrics present in both races", n, got)
+
+
+def _records_by_task_field(d):
+    """per-task records keyed by their own task field (operation for a record without one), read directly from the
+    stored dictionary - not through GlobalStats.metrics()"""
+    recs, dups = {}, set()
+    for e in (d or {}).get("op_metrics", []):
+        n = e["task"] if "task" in e else e["operation"]
+        if n in recs:
+            dups.add(n)
+        else:
+            recs[n] = e
+    return recs, dups
+
+
+def _task_leaves(e):
+    out = {}
+    for grp in ["throughput"] + TASK_GROUPS:
+        for sk, sv in e.get(grp, {}).items():
+            if is_num(sv):
+                out[(grp, sk)] = sv
+    if is_num(e.get("error_rate")):
+        out[("error_rate",)] = e["error_rate"]
+    return out
+
+
+def oracle_task_values(ctx, b, c, fwd, what="b→c"):
+    """every row listed for a task shows a (baseline, contender) pair of values stored in the records whose task
+    field is that task - in both races - and not the numbers of another task"""
+    rb, db = _records_by_task_field(b)
+    rc, dc = _records_by_task_field(c)
+    fmts = _py_formatters()
+    cache = {}
+    for r in fwd:
+        t = r["key"][1]
+        if t == "" or t not in rb or t not in rc or t in db or t in dc:
+            continue
+        if t not in cache:
+            lb, lc = _task_leaves(rb[t]), _task_leaves(rc[t])
+            cands = set()
+            for k in lb.keys() & lc.keys():
+                for f in fmts.values():
+                    try:
+                        cands.add((repr(canon_val(f(lb[k]))), repr(canon_val(f(lc[k])))))
+                    except OverflowError:
+                        pass
+            cache[t] = cands
+        if (repr(r["base"]), repr(r["cont"])) not in cache[t]:
+            _fail(ctx, "task-values", f"{what}: row {r['key']} does not show values stored for task {t!r} in both races",
+                  sorted(cache[t])[:3], [r["base"], r["cont"]])
 
 
 def oracle_presence(ctx, fwd, self_b, self_c):
@@ -1039,6 +1139,9 @@ def run_table(ctx, case):
         if use_model:  # (a disk-usage statistic missing in one race is listed as 0 by design)
             oracle_presence(ctx, fwd, sb, sc)
             oracle_count(ctx, b, c, fwd)
+    oracle_task_values(ctx, b, c, fwd)
+    if "bwd" not in errs:
+        oracle_task_values(ctx, c, b, bwd, "c→b")
     oracle_files(ctx, case, tabs["fwd_plain"]["r"])
     sig = set()
     for r in fwd:
@@ -1087,6 +1190,7 @@ STREAMS = [
     Stream("consts", gen_consts, run_consts, quick=1, thorough=1, shards=1),
     Stream("cells", gen_cells, run_table, quick=2400, thorough=40000, shards=16),
     Stream("tables", gen_tables, run_table, quick=1600, thorough=30000, shards=16),
+    Stream("task_aliasing", gen_aliasing, run_table, quick=800, thorough=15000, shards=16),
     Stream("none_lists", gen_none_lists, run_table, quick=320, thorough=6000, shards=8),
     Stream("disk_usage_exercise", gen_disk_usage, run_table, quick=160, thorough=3000, shards=8),
 ]
